@@ -68,6 +68,10 @@ Theorem C01_class_all_date_times : forall tag (y : Z) mo d h mi s ctx, tag_ok_b 
   exists g, canon LTlv EDefault (TPrim PDateTime) tag (VDate y mo d h mi s) ctx = Some g.
 Proof. exact class_datetime. Qed.
 
+Theorem C01_class_all_receipt_numbers : forall tag n ctx, tag_ok_b tag = true -> n < 10000 \/ n = 65535 ->
+  exists g, canon (LFixed 2) EReceiptNo (TPrim (PInt 8)) tag (VInt n) ctx = Some g.
+Proof. exact class_receipt_no. Qed.
+
 (* every shipped packet / container, all optionals present and all optionals absent, is in the class *)
 Theorem C01_shipped_layouts_in_class : outside true = [] /\ outside false = [].
 Proof. exact shipped_in_class. Qed.
@@ -107,5 +111,6 @@ Print Assumptions C01_class_all_cp437_text.
 Print Assumptions C01_class_all_hex_text.
 Print Assumptions C01_class_all_utf8_text.
 Print Assumptions C01_class_all_date_times.
+Print Assumptions C01_class_all_receipt_numbers.
 Print Assumptions C01_shipped_layouts_in_class.
 Print Assumptions C01_frame_roundtrip.
